@@ -21,7 +21,7 @@ HARNESS = "Cfg.Json Cfg.Config Gen.Alloc Gen.Replace Harness.C13"
 PKGS = {   # relative path -> (package name, alias used in the generated source, go source)
     "ty": ("ty", "ty", "package ty\n\ntype K struct{ X int }\ntype K2 struct{ Y int }\ntype KA = K2\ntype KI interface{ F() }\n"),
     "v2/ty": ("ty", "ty2", "package ty\n\ntype K struct{ Z string }\n"),
-    "rt": ("rt", "rt", "package rt\n\ntype R struct{ X int }\ntype R2 struct{ Y int }\ntype RA = R2\n"),
+    "rt": ("rt", "rt", "package rt\n\ntype R struct{ X int }\ntype R2 struct{ Y int }\ntype RA = R2\ntype G[T any] struct{ V T }\n"),
     "alt/rt": ("rt", "rt2", "package rt\n\ntype S struct{ X int }\n"),
 }
 KEYS = [("ty", "K"), ("ty", "K2"), ("ty", "KA"), ("v2/ty", "K"), ("ty", "KI")]
@@ -148,7 +148,14 @@ def mentions(t):
 # ------------------------------------------------------------------ cases
 # package-level types of the source package itself; generic interfaces declare type parameters of
 # the same names (shadowing them) and of the names of replacement targets
-SRC_TYPES = "type Key string\n\ntype Val struct{ N int }\n\ntype R struct{ Z int }\n\n"
+SRC_TYPES = ("type Key string\n\ntype Val struct{ N int }\n\ntype R struct{ Z int }\n\n"
+             # unexported: usable only by in-package mocks - as replacement targets and as replaced originals
+             "type fakeA struct{ N int }\n\ntype fakeB = ty.K2\n\ntype origU struct{ U int }\n\ntype origV = ty.K\n\n"
+             "type fakeG[T any] struct{ V T }\n\n")
+# generic replacement targets (known finding C13-generic-target): (package, name) -> printed type-parameter list
+GENERIC_TARGETS = {("src", "fakeG"): "[T any]", ("rt", "G"): "[T any]"}
+INPKG_KEYS = [("src", "origU"), ("src", "origV"), ("src", "Key"), ("src", "Val"), ("ty", "K"), ("ty", "KA")]
+INPKG_TARGETS = [("src", "fakeA"), ("src", "fakeB"), ("src", "fakeA"), ("src", "R"), ("rt", "R"), ("alt/rt", "S")]
 SRC_KEYS = [("src", "Key"), ("src", "Val"), ("src", "R")]
 TPARAM_SETS = [[("Key", "comparable"), ("V", "any")], [("T", "any"), ("R", "any")], [("Val", "any"), ("Key", "comparable")],
                [("K", "comparable"), ("S", "any")]]
@@ -250,7 +257,25 @@ def gen_case(rng):
         slots2 = [("file",), ("pkg",)] + [("iface", n) for n in cfg["ifaces"]]
         for key in rng.sample(SRC_KEYS, rng.randint(1, 3)):
             put(cfg, rng.choice(slots2), key, rng.choice([t for t in TARGETS if t[0] != "ty" or True]))
-    case = {"ifaces": ifaces, "cfg": cfg, "others": {}, "recursive": False}
+    case = {"ifaces": ifaces, "cfg": cfg, "others": {}, "recursive": False, "inpkg": False}
+    if rng.random() < 0.28:
+        # in-package mocks (mock package = source package): unexported types of the source package as
+        # replacement targets and as replaced originals; no import of the package itself may appear
+        case["inpkg"] = True
+        it = rng.choice(ifaces if not ifaces[-1].get("tparams") else ifaces[:-1])
+        m = it["methods"][0]
+        ks = rng.sample(INPKG_KEYS, rng.randint(1, 3))
+        for k in ks:
+            t = named(*k)
+            m["params"].insert(0, ("u%d" % len(m["params"]), t))
+            if rng.random() < 0.6:
+                m["results"].append(("", t))
+            if rng.random() < 0.4:
+                m["params"].insert(0, ("w%d" % len(m["params"]), rng.choice([("ptr", t), ("slice", t), ("map", ("basic", "string"), t)])))
+        slots3 = [("file",), ("pkg",)] + [("iface", n) for n in cfg["ifaces"]]
+        for k in ks:
+            put(cfg, rng.choice(slots3), k, rng.choice([t for t in INPKG_TARGETS if t != k]))
+        return case
     if rng.random() < 0.3:
         # a sub-package listed explicitly and an unrelated sibling; the same source package `ty` at
         # the top level and on (the possibly recursive) package src with different type names
@@ -289,6 +314,8 @@ def rt_yaml(rt):
 def config_yaml(case, base, template, with_rt, outdir):
     cfg = case["cfg"]
     d = {"template": template, "dir": outdir + "/{{.SrcPackageName}}", "filename": "mocks.go", "pkgname": "mocks", "all": True, "force-file-write": True}
+    if case.get("inpkg"):
+        d.update({"dir": "{{.InterfaceDir}}", "pkgname": "{{.SrcPackageName}}", "filename": "zz_%s.go" % outdir})
     if template.startswith("file://"):
         d["require-template-schema-exists"] = False
     if with_rt and cfg["file"]:
@@ -353,6 +380,8 @@ def source_file(case, rel="src"):
             for _, t in m["params"] + m["results"]:
                 used |= mentions(t)
     used.discard("src")
+    if rel == "src":
+        used.add("ty")              # the alias declarations of SRC_TYPES refer to it
     imports = "".join('\t%s "%s/%s"\n' % (PKGS[p][1], MOD, p) for p in sorted(used))
     body = ""
     for it in case["ifaces"]:
@@ -420,9 +449,11 @@ def run_case(ctx, base, case, idx, mockery=None):
         p = run([exe, "--config", str(cfgp), "--log-level=error"], cwd=d, env=env, timeout=600)
         err = p.stderr.decode(errors="replace")
         obs[tag] = {"rc": p.returncode, "stderr": err[-500:], "panic": "panic:" in err or "goroutine " in err}
-        f = d / outdir / "src" / "mocks.go"
+        f = d / "src" / ("zz_%s.go" % outdir) if case.get("inpkg") else d / outdir / "src" / "mocks.go"
         if p.returncode == 0 and f.exists():
             obs[tag]["text"] = f.read_text(errors="replace")
+            if case.get("inpkg") and tag != "testify":
+                f.unlink()          # the probe output is not part of the package for the next run
         obs[tag]["others"] = {}
         for rel in case.get("others", {}):
             g = d / outdir / rel.split("/")[-1] / "mocks.go"
@@ -446,7 +477,7 @@ def normalise(s, imports):
     return re.sub(r"\b([A-Za-z_]\w*)\.([A-Za-z_]\w*)", rep, s)
 
 
-def judge_file(label, mocks, A, Bq):
+def judge_file(label, mocks, A, Bq, self_pkg=None):
     """One output file.  mocks = [(interface, [acceptable effective replace-type maps])]."""
     errs = []
     if [i["name"] for i in A["ifaces"]] != [it["name"] for it, _ in mocks] or len(Bq["ifaces"]) != len(mocks):
@@ -468,7 +499,10 @@ def judge_file(label, mocks, A, Bq):
                     key = (t[1], t[2]) if t[0] == "named" else None
                     wants = []
                     for rt in cands:
-                        w = "{%s/%s}.%s" % ((MOD,) + rt[key]) if key in rt else bn
+                        w = bn
+                        if key in rt:
+                            # a target in the mock's own package is referred to without qualifier or import
+                            w = rt[key][1] if rt[key][0] == self_pkg else "{%s/%s}.%s" % ((MOD,) + rt[key])
                         if w not in wants:
                             wants.append(w)
                     if gn in wants:
@@ -480,6 +514,8 @@ def judge_file(label, mocks, A, Bq):
                         errs.append(("changed", "%s: %s.%s %s %d of type %s has no entry in the chain of this mock but is rendered %s with the setting and %s without" % (
                             label, it["name"], m["name"], kind, pos, go_src(t), g, b0)))
     imp = {p for p, q in A["imports"]}
+    if self_pkg is not None and MOD + "/" + self_pkg in imp:
+        errs.append(("imports", "%s: the in-package mock imports its own package %s/%s" % (label, MOD, self_pkg)))
     if imp != referenced:
         errs.append(("imports", "%s: imports %r, packages referenced by the rendered signatures %r" % (label, sorted(imp), sorted(referenced))))
     if len({q for p, q in A["imports"]}) != len(A["imports"]):
@@ -509,7 +545,8 @@ def oracle(case, obs):
         if obs[tag]["rc"] != 0 or "text" not in obs[tag] and tag != "testify":
             return [("run", "%s run failed (rc=%d): %s" % (tag, obs[tag]["rc"], obs[tag]["stderr"][-300:]))]
     errs += judge_file("src", [(it, [effective(chain)]) for it, chain in mocks_of(case)],
-                       parse_probe(obs["with"]["text"]), parse_probe(obs["without"]["text"]))
+                       parse_probe(obs["with"]["text"]), parse_probe(obs["without"]["text"]),
+                       self_pkg="src" if case.get("inpkg") else None)
     for rel in case.get("others", {}):
         if rel not in obs["with"]["others"] or rel not in obs["without"]["others"]:
             errs.append(("shape", "no output for package %s" % rel))
@@ -537,9 +574,10 @@ def case_term(case, obs):
             coq_bytes(it["name"]), coq_list(coq_rt(c) for c in chain if c is not None), meths))
     ob = coq_list("(%s, %s)" % (coq_bytes(i["name"]), coq_list("(%s, %s, %s)" % (
         coq_bytes(n), coq_list(coq_bytes(x) for x in ps), coq_list(coq_bytes(x) for x in rs)) for n, ps, rs in i["methods"])) for i in A["ifaces"])
-    return "{| k_names := %s; k_dst := %s; k_inpkg := false; k_ifaces := %s; k_obs := %s; k_imports := %s |}" % (
+    decl = coq_list("((%s, %s), %s)" % (coq_bytes(MOD + "/" + p), coq_bytes(n), coq_bytes(d)) for (p, n), d in GENERIC_TARGETS.items())
+    return "{| k_names := %s; k_dst := %s; k_inpkg := %s; k_ifaces := %s; k_decl := %s; k_obs := %s; k_imports := %s |}" % (
         coq_list(["(%s, %s)" % (coq_bytes(MOD + "/" + p), coq_bytes(v[0])) for p, v in PKGS.items()] + ["(%s, %s)" % (coq_bytes(MOD + "/src"), coq_bytes("src"))]),
-        coq_bytes(MOD + "/outp/src"), coq_list(ifs), ob,
+        coq_bytes(MOD + "/src" if case.get("inpkg") else MOD + "/outp/src"), coq_bool(bool(case.get("inpkg"))), coq_list(ifs), decl, ob,
         coq_list("(%s, %s)" % (coq_bytes(p), coq_bytes(q)) for p, q in A["imports"]))
 
 
@@ -556,7 +594,8 @@ def dump_case(case):
         return None if c is None else [[list(k), list(v)] for k, v in c.items()]
     cfg = case["cfg"]
     return {"ifaces": case["ifaces"], "skip_build": case.get("skip_build", False),
-            "others": case.get("others", {}), "recursive": case.get("recursive", False),
+            "others": case.get("others", {}), "recursive": case.get("recursive", False), "inpkg": case.get("inpkg", False),
+            "witness": case.get("witness"),
             "cfg": {"file": rt(cfg["file"]), "pkg": rt(cfg["pkg"]),
                     "ifaces": {n: {"config": rt(ic["config"]), "configs": [rt(c) for c in ic["configs"]]} for n, ic in cfg["ifaces"].items()}}}
 
@@ -584,6 +623,7 @@ def load_case(d):
     cfg = d["cfg"]
     return {"ifaces": ifaces, "skip_build": d.get("skip_build", False),
             "others": {rel: load_ifaces(l) for rel, l in d.get("others", {}).items()}, "recursive": d.get("recursive", False),
+            "inpkg": d.get("inpkg", False), "witness": d.get("witness"),
             "cfg": {"file": rt(cfg["file"]), "pkg": rt(cfg["pkg"]),
                     "ifaces": {n: {"config": rt(ic["config"]), "configs": [rt(c) for c in ic["configs"]]} for n, ic in cfg["ifaces"].items()}}}
 
@@ -703,6 +743,16 @@ def hand_cases():
     user = {"name": "O0", "methods": [{"name": "M0", "params": [("a0", K), ("a1", K2)], "variadic": False, "results": [("", K2)]}]}
     out.append({"ifaces": one([("a0", K), ("a1", K2)], [("", K2)]), "cfg": cfg, "recursive": True,
                 "others": {"src/sub": [dict(user, name="S0")], "oth": [user]}})
+    # in-package mocks: unexported named type and unexported alias of the source package as targets, an
+    # unexported original, a second (exported, foreign) mapping in the same run
+    cfg = {"file": None, "pkg": None, "ifaces": {}}
+    put(cfg, ("pkg",), ("src", "Key"), ("src", "fakeA"))
+    put(cfg, ("pkg",), ("src", "origU"), ("src", "fakeB"))
+    put(cfg, ("file",), ("ty", "K"), ("rt", "R"))
+    out.append({"cfg": cfg, "inpkg": True, "ifaces": [{"name": "I0", "methods": [
+        {"name": "One", "params": [("a", named("src", "Key"))], "variadic": False, "results": [("", named("src", "Key"))]},
+        {"name": "Two", "params": [("u", named("src", "origU")), ("p", ("ptr", named("src", "origU"))), ("k", K)], "variadic": False,
+         "results": [("", named("src", "origU")), ("", named("", "error"))]}]}]})
     # type parameters that shadow package-level types which are keys: `Get(k Key) (V, bool)` keeps its
     # type parameter, `Put(k Key)` of the plain interface is replaced
     cfg = {"file": None, "pkg": None, "ifaces": {}}
@@ -729,7 +779,39 @@ def hand_cases():
     for c in out:
         c.setdefault("others", {})
         c.setdefault("recursive", False)
+        c.setdefault("inpkg", False)
     return out
+
+
+def witness_cases():
+    """Inputs of the known-finding class C13-generic-target: the replacement target is a generic type."""
+    K = named("ty", "K")
+    out = []
+    for inpkg, key, tgt, sig in ((True, ("src", "Key"), ("src", "fakeG"), [("a", named("src", "Key"))]),
+                                 (False, ("ty", "K"), ("rt", "G"), [("a", K)]),
+                                 (True, ("ty", "K"), ("rt", "G"), [("a", K), ("b", ("ptr", K))])):
+        cfg = {"file": None, "pkg": None, "ifaces": {}}
+        put(cfg, ("pkg",), key, tgt)
+        out.append({"cfg": cfg, "inpkg": inpkg, "others": {}, "recursive": False, "witness": "C13-generic-target",
+                    "ifaces": [{"name": "I0", "methods": [{"name": "One", "params": sig, "variadic": False, "results": [("", sig[0][1])]}]}]})
+    return out
+
+
+def is_generic_target_case(case):
+    cfg = case["cfg"]
+    maps = [cfg["file"], cfg["pkg"]] + [x for ic in cfg["ifaces"].values() for x in [ic["config"]] + ic["configs"]]
+    return any(t in GENERIC_TARGETS for m in maps if m for t in m.values())
+
+
+def check_witness(ctx, case, obs):
+    """The listed symptom: the declaration `Name[T any]` is rendered where a type is needed, so the
+    testify output cannot be formatted (or, unformatted, does not build)."""
+    text = obs["with"].get("text", "")
+    rendered = any(re.search(r"\b(fakeG|G)\[T any\]", x) for i in parse_probe(text)["ifaces"] for _, ps, rs in i["methods"] for x in ps + rs) if text else False
+    broken = obs["testify"]["rc"] != 0 and "formatting mock file" in obs["testify"]["stderr"] or obs.get("build", {}).get("rc", 0) != 0
+    if rendered and broken:
+        return True
+    return False
 
 
 def check(ctx, only=None):
@@ -742,7 +824,7 @@ def check(ctx, only=None):
     if only is not None:
         cases = [load_case(c) for c in only]
     else:
-        cases = hand_cases() + [gen_case(ctx.rng) for _ in range(700 if ctx.thorough() else 55)]
+        cases = hand_cases() + witness_cases() + [gen_case(ctx.rng) for _ in range(700 if ctx.thorough() else 55)]
     for c in cases:
         if any(("", "error") in (lv or {}) for lv in [c["cfg"]["file"], c["cfg"]["pkg"]] +
                [x for ic in c["cfg"]["ifaces"].values() for x in [ic["config"]] + ic["configs"]]):
@@ -751,10 +833,22 @@ def check(ctx, only=None):
     obs = pmap(lambda ic: run_case(ctx, base, ic[1], ic[0]), list(enumerate(cases)))
     t2 = time.time()
     fails = {}
+    known = load_known("C13")
     for i, (c, o) in enumerate(zip(cases, obs)):
+        if is_generic_target_case(c):
+            # known-finding class: the symptom must be the listed one; anything else is reported
+            if known and check_witness(ctx, c, o):
+                ctx.cov["witness"] = ctx.cov.get("witness", 0) + 1
+                continue
+            fails[i] = [("generic-target", "replacement target is a generic type: expected the known symptom (declaration rendered, testify output "
+                         "not formattable); observed probe=%r testify rc=%d build=%r" % (o["with"].get("text", "")[-200:], o["testify"]["rc"], o.get("build")))]
+            continue
         e = oracle(c, o)
         if e:
             fails[i] = e
+    if ctx.cov.get("witness"):
+        ctx.known("C13-generic-target: a replace-type target that is a generic type is rendered as its declaration (e.g. fakeG[T any]); "
+                  "generation fails at formatting (%d witness inputs)" % ctx.cov["witness"])
     usable = [i for i, o in enumerate(obs) if "text" in o["with"]]
     bad, cerrs = coq_mismatches(ctx, HARNESS, [case_term(cases[i], obs[i]) for i in usable], shard=8)
     bad = [usable[i] for i in bad]
